@@ -3,6 +3,7 @@
 package props
 
 import (
+	"math/big"
 	"encoding/json"
 	"fmt"
 	"reflect"
@@ -67,7 +68,7 @@ func jText(v any) string {
 var (
 	c06Keys    = []string{"a", "b", "level", "status", "msgid", "req.path", "x-y", "with space", "Ünï", "k9", "_u", "9lead", "a/b", "q\"uote", "nested", "list", "n", "__typename", "__v", "--x"}
 	c06Strings = []string{"", "v", "hello world", "with \"quotes\"", "back\\slash", "new\nline", "tab\there", "a=b", "ünïcödé 世界", "{\"not\":\"parsed\"}", "[1,2]", " lead", "trail ", "null", "true", "12", " ", "\x7f", "<b>&amp;</b>"}
-	c06Numbers = []string{"0", "1", "-1", "42", "200", "1.5", "-0.25", "1e3", "1E+2", "5e-1", "-0", "0.0", "123456789012", "9223372036854775807", "-9223372036854775808",
+	c06Numbers = []string{"0", "1", "-1", "42", "200", "1.5", "-0.25", "1e3", "1E+2", "5e-1", "-0", "0.0", "123456789012", "9223372036854775807", "-9223372036854775808", "9007199254740993", "1700000000123456789", "-9007199254740993",
 		"9223372036854775808", "-9223372036854775809", "18446744073709551616", "1.0", "3.14159", "100000000000000000000"}
 )
 
@@ -115,7 +116,18 @@ func genJObj(r *vk.RNG, depth, n int) *jObj {
 }
 
 // numEqual: both texts denote the same number.
+// numEqual: the label text a denotes the written JSON number b. An integer that fits int64 is a value
+// the engine can hold exactly, so it must come back exactly (9007199254740993 is not ...992); other
+// numbers are compared as float64 (the only type left to hold them).
 func numEqual(a, b string) bool {
+	ra, ok1 := new(big.Rat).SetString(a)
+	rb, ok2 := new(big.Rat).SetString(b)
+	if ok1 && ok2 && ra.Cmp(rb) == 0 {
+		return true
+	}
+	if ok2 && rb.IsInt() && rb.Num().IsInt64() {
+		return false
+	}
 	fa, e1 := strconv.ParseFloat(a, 64)
 	fb, e2 := strconv.ParseFloat(b, 64)
 	return e1 == nil && e2 == nil && fa == fb
